@@ -6,7 +6,7 @@ CONSTANTS Nib = {0, 1}
           MaxKeys = 4
           TrackHash = FALSE
           MaxRoots = 0
-          MaxOps = 2
+          MaxOps = 3
           Mode = "mc"
           Depth = 0
           MaxGen = 0
